@@ -37,8 +37,8 @@ def run(chk):
     layerb.check_sketch_specs(chk, ["SuperMinHash", "SuperMinHash2", "SetSketch"], quick)
     f, n, res = joinfam.gen_schedules(chk, "c04", nitems=3, ninst=1, depth=3, maxslice=3)
     chk.cov["schedules_enumerated"] = n
-    joinfam.replay_join(chk, f, KINDS, "schedules", stride=12 if quick else 2, ms=[1, 2, 3, 4, 5, 8, 16])
-    joinfam.random_join(chk, KINDS, "random-small-m", runs=8 if quick else 40, length=150, nitems=120, ms=[1, 2, 3, 4, 5, 7])
+    joinfam.replay_join(chk, f, KINDS, "schedules", stride=6 if quick else 1, ms=[1, 2, 3, 4, 5, 8, 16])
+    joinfam.random_join(chk, KINDS, "random-small-m", runs=16 if quick else 60, length=150, nitems=120, ms=[1, 2, 3, 4, 5, 7])
     joinfam.random_join(chk, KINDS, "random-large-m", runs=3 if quick else 12, length=30, nitems=30, ms=[64, 200],
                         seed=chk.seed + 1)
     import densfam
